@@ -3,7 +3,7 @@
 From Coq Require Import List NArith Bool PeanoNat.
 From RopeVerif.C15 Require Import Syntax Scoping RopeScopes Fragment.
 From RopeVerif.C02 Require Import Occurrences OccurrencesProofs.
-From RopeVerif.C01 Require Import Rename OccTree OccTreeProofs AlphaSpec AlphaTreeProofs AlphaProofs.
+From RopeVerif.C01 Require Import Rename OccTree OccTreeProofs AlphaSpec AlphaTreeProofs AlphaProofs TokensProofs.
 Import ListNotations.
 
 Lemma memN_spec i l : memN i l = true <-> In i l.
@@ -26,17 +26,6 @@ Proof.
 Qed.
 
 (* the listed chains are the chains of their paths *)
-Lemma o_chains_list_inv pre c0 cs : forall i ch,
-  In ch (o_chains_list pre c0 i cs) ->
-  exists j c, nth_error cs j = Some c /\ In ch (o_chains (pre ++ [i + j]) c0 c).
-Proof.
-  induction cs as [|c r IHr]; intros i ch H; [destruct H|].
-  cbn [o_chains_list] in H. apply in_app_or in H as [H|H].
-  - exists 0%nat, c. rewrite Nat.add_0_r. now split.
-  - destruct (IHr (S i) ch H) as (j & c' & Hn & Hin). exists (S j), c'.
-    rewrite <- Nat.add_succ_comm. now split.
-Qed.
-
 Lemma listed_chain_gen t : forall pre acc ch,
   In ch (o_chains pre acc t) -> exists p, chain_path ch = pre ++ p /\ ochain_from t pre p acc = Some ch.
 Proof.
@@ -161,3 +150,22 @@ Section OnModule.
       destruct (N.eqb_spec (t_name t) x) as [Hn|Hn]; [now rewrite Hn | now rewrite !andb_false_r].
   Qed.
 End OnModule.
+
+(* the same without the structural hypothesis: inside the fragment C02's tokens and the SPEC's binders agree
+   (TokensProofs.well_tokened_frag); what is asked of the program term is that its token ids are unique *)
+Theorem alpha_rename_full p nl bi inh init call meths kwlike q n Pb :
+  in_fragment_C02 bi inh init call meths kwlike p = true ->
+  unique_ids p = true ->
+  fresh_name p n = true ->
+  In q (toks p) -> core q = true ->
+  spec_binding bi (spec_tree nl p) q = BScope Pb ->
+  forall t, In t (toks p) -> core t = true ->
+    alpha_tok bi nl p (rename_ids bi inh (rope_tree p) init call meths kwlike (toks p) q) n
+              (t_env t) (t_id t) (t_name t) = true.
+Proof.
+  intros Hf Hu Hn Hq Cq Bq t Ht Ct.
+  assert (H15 : in_fragment_C15 p = true).
+  { unfold in_fragment_C02 in Hf. now apply andb_prop in Hf as [H _]. }
+  exact (alpha_rename p nl bi inh init call meths kwlike q n Pb Hf
+           (well_tokened_frag nl p H15 Hu) (fresh_of_name nl p n H15 Hn) Hq Cq Bq t Ht Ct).
+Qed.
